@@ -184,6 +184,28 @@ func runLock(c *Ctx, rule string) {
 			}
 		}
 	}
+	// an operation that is composed of several lock-taking methods (Store = store() + evict(), each
+	// locking on its own) is not atomic: another goroutine can observe the state between them
+	for _, m := range la.methods {
+		if la.locksIn[m] {
+			continue
+		}
+		var sites []string
+		for _, b := range m.Blocks {
+			for _, in := range b.Instrs {
+				if call, ok := in.(ssa.CallInstruction); ok {
+					if callee := staticCallee(call.Common()); callee != nil && recvNamed(callee) == named && la.locksIn[callee] {
+						sites = append(sites, callee.Name())
+					}
+				}
+			}
+		}
+		if len(sites) >= 2 {
+			c.Bad(rule, fnName(m), "atomic", m.Pos(), fmt.Sprintf("the operation runs %d separate critical sections (%s): it is not atomic, other goroutines can observe and change the cache between them", len(sites), strings.Join(sites, ", ")))
+		} else if len(sites) == 1 {
+			c.OK(rule, fnName(m), "atomic", m.Pos(), "delegates to one lock-taking method")
+		}
+	}
 	// pass 1: lockers and lock-free public methods with entry unlocked
 	done := map[*ssa.Function]bool{}
 	var helpers []*ssa.Function
@@ -466,6 +488,15 @@ func (la *lockAnalysis) access(in ssa.Instruction) (int, string) {
 		}
 		if name == "builtin.len" && len(x.Call.Args) > 0 && la.guardedType(x.Call.Args[0].Type()) {
 			return 1, "node map"
+		}
+		// the ADDRESS of a guarded field handed to a call (l.buf.WriteString(..), helper(&l.count)):
+		// the callee can write through it, so it counts as a mutation of that field
+		for _, a := range x.Call.Args {
+			if i, fa, ok := la.selfField(a); ok && i != la.muIdx && !freshObject(fa.X) {
+				if _, isPtr := a.Type().(*types.Pointer); isPtr {
+					return 2, fieldLabel(i) + " (address passed to " + shortType(name) + ")"
+				}
+			}
 		}
 	}
 	return 0, ""
